@@ -437,6 +437,9 @@ fn plan_base(prop: &str) -> Vec<Item> {
                 v.push(it("repoll", &format!("pool=1,who={}", who), Some(2), 3));
             }
             v.push(it("repoll", "pool=2,who=0", Some(1), 2));
+            for fin in [0, 1, 2] {
+                v.push(it("repoll", &format!("pool=1,stop=1,fin={}", fin), Some(2), 3));
+            }
             v.push(it("pipe_in_items", "pool=1,n=2,pat=1,conc=1", Some(1), 2));
             v.push(it("drop_obj", "pool=1,state=3,dropper=2", Some(1), 2));
             v.extend(prog_sweep(&[], &[1], Some(1), 2, Some(1), 1));
@@ -457,6 +460,13 @@ fn plan_base(prop: &str) -> Vec<Item> {
             }
             v.push(it("sync_states", "pool=1,st=1,n=1", Some(2), 3));
             v.push(it("sync_states", "pool=0,st=1,n=2", Some(2), 3));
+            // a future that once ran the queue itself meets it again after the queue changed hands (seeds C01-j, C02-j)
+            for fin in [0, 1, 2] {
+                v.push(it("repoll", &format!("pool=1,stop=1,fin={}", fin), Some(2), 3));
+            }
+            for who in [0, 1, 2] {
+                v.push(it("repoll", &format!("pool=1,who={}", who), Some(2), 3));
+            }
             v.extend(prog_sweep(&[], &[1], Some(1), 2, Some(1), 1));
             v.extend(prog_sweep(&[], &[0, 2], None, 1, None, 1));
         }
@@ -658,6 +668,10 @@ fn plan_base(prop: &str) -> Vec<Item> {
         "C07" => {
             for who in [0, 1, 2] {
                 v.push(it("repoll", &format!("pool=1,who={}", who), Some(2), 3));
+            }
+            for fin in [0, 1, 2] {
+                v.push(it("repoll", &format!("pool=1,stop=1,fin={}", fin), Some(2), 3));
+                v.push(it("repoll", &format!("pool=2,stop=1,fin={}", fin), Some(1), 2));
             }
             for mode in 0..5 {
                 for pool in [0, 1, 2] {
